@@ -9,6 +9,9 @@
 //	      rand.Seed(seed); produce a secret; rand.Seed(seed); produce a second one.
 //	      "reused" if the two share their random part (Schnorr R, private key,
 //	      ECDSA r, ECIES ephemeral key / IV, keystore IV), else "fresh".
+//	noentropy nonce|keygen|ecdsa|keystore
+//	      crypto/rand.Reader is replaced by a reader that fails: the producer must return an error
+//	      ("error"); "produced" means it fell back to some other source.
 //	keystore <n>
 //	      create a keystore, then try to recover its master key from the plain-text
 //	      IV by trying the nanoseconds around the creation time as math/rand seeds:
@@ -17,7 +20,9 @@ package main
 
 import (
 	"bytes"
+	crand "crypto/rand"
 	"crypto/sha256"
+	"errors"
 	"fmt"
 	"math/big"
 	"math/rand"
@@ -135,6 +140,39 @@ func exec(t []string) string {
 		c2, _ := newKeystore([]byte("pw"))
 		iv2, _ := c2.LoadStoredData("IV")
 		return fresh(iv1, iv2)
+	case "noentropy":
+		// the OS source fails: a secret producer must report the failure, not fall back to something else
+		saved := crand.Reader
+		crand.Reader = failingReader{}
+		defer func() { crand.Reader = saved }()
+		key := sha256.Sum256([]byte("c38 noentropy"))
+		switch t[1] {
+		case "nonce":
+			d := new(big.Int).SetBytes(key[:])
+			d.Mod(d, crypto.N)
+			var m [32]byte
+			if _, err := crypto.AggregateSignatures([]*big.Int{d}, m); err != nil {
+				return "error"
+			}
+		case "keygen":
+			if _, _, err := crypto.GenerateKeyPair(); err != nil {
+				return "error"
+			}
+		case "ecdsa":
+			if _, err := crypto.Sign(key[:], []byte("m")); err != nil {
+				return "error"
+			}
+		case "keystore":
+			ksSeq++
+			p := filepath.Join(tmp(), fmt.Sprintf("keystore%d.dat", ksSeq))
+			os.Remove(p)
+			if c := account.NewClient(p, []byte("pw"), true); c == nil {
+				return "error"
+			}
+		default:
+			panic("harness: unknown noentropy target " + t[1])
+		}
+		return "produced"
 	case "keystore":
 		pw := []byte("password-" + t[1])
 		crypto.ToAesKey(pw) // warm up
@@ -205,6 +243,10 @@ func exec(t []string) string {
 
 var lastDetail string
 
+type failingReader struct{}
+
+func (failingReader) Read([]byte) (int, error) { return 0, errors.New("entropy source unavailable") }
+
 func oracle(t []string, out string) *hx.Violation {
 	switch out {
 	case "reused":
@@ -217,6 +259,9 @@ func oracle(t []string, out string) *hx.Violation {
 		}[t[0]]
 		return &hx.Violation{Kind: "secret-from-seedable-source:" + t[0],
 			Detail: "after rand.Seed(" + t[1] + ") twice: " + what}
+	case "produced":
+		return &hx.Violation{Kind: "secret-produced-without-entropy:" + t[1],
+			Detail: "with crypto/rand.Reader failing, " + t[1] + " still produced a secret instead of returning an error (fallback to a non-OS source)"}
 	case "predicted":
 		return &hx.Violation{Kind: "keystore-master-key-from-clock", Detail: lastDetail}
 	}
@@ -238,6 +283,9 @@ func gen(g *hx.Gen) {
 		if i%10 == 0 {
 			g.Emit("keystore2 %d", s)
 		}
+	}
+	for _, w := range []string{"nonce", "keygen", "ecdsa", "keystore"} {
+		g.Emit("noentropy %s", w)
 	}
 	for i := 0; i < g.N(1, 3); i++ {
 		g.Emit("keystore %d", i)
